@@ -7,6 +7,7 @@ SPDX-License-Identifier: Apache-2.0
 package jws
 
 import (
+	"bytes"
 	"encoding/base64"
 	"errors"
 	"fmt"
@@ -172,6 +173,12 @@ func VerifyJWS(jwsStr string, jwk *jws.JWK, opts ...ParseOpt) (*JSONWebSignature
 	sInput, err := signingInput(parsedJWS.ProtectedHeaders, parsedJWS.Payload)
 	if err != nil {
 		return nil, fmt.Errorf("build signing input: %w", err)
+	}
+
+	// the signature covers the protected header as it was transmitted (RFC 7515, section 5.2),
+	// not a re-serialization of its parsed members
+	if i := bytes.IndexByte(sInput, '.'); i >= 0 {
+		sInput = append([]byte(strings.Split(jwsStr, ".")[jwsHeaderPart]), sInput[i:]...)
 	}
 
 	err = VerifySignature(jwk, parsedJWS.signature, sInput)
